@@ -2,10 +2,27 @@ NOTES = ("All checks import the library from /repo at run time (VERIF_REPO overr
          "exhaustively against the real implementation and judge it with the Python reference model in psmc/ref.py. "
          "Known findings: known_findings.json. fix: commits in /repo are listed there as fixed entries.")
 ENGINES = [
-    {"name": "E1 schedule-space explorer", "path": "psmc/explore.py", "serves_properties": ["C01"],
+    {"name": "E1 schedule-space explorer", "path": "psmc/explore.py", "serves_properties": ["C01","C02","C03","C04","C05","C06","C08","C09","C10","C11","C14","C16","C19"],
      "kind_free_text": "explicit DFS over the full bounded box of primary unknowns on the real z3 solver object of the implementation; unsat prefixes prune sub-boxes"},
 ]
 _T = "explicit-state enumeration of the bounded schedule box on the real solver object (DFS, pin/check/pop) vs. Python reference model"
 CHECKS["C01"] = {"engine": "E1 schedule-space explorer", "technique": _T,
     "text": "every point of the box start,end in [-1,H+1] x duration x scheduled flags x free horizon of ~5000 (quick) task programs is either visited or refuted by the implementation's own assertion set under a pinned prefix; every admitted leaf must satisfy the task-timing clauses; 4 solver paths",
     "note": "trusts z3 on ground pinned queries, the task-timing reference clauses and the adapter (documented task unknowns); bounds: <=3 tasks, H<=6"}
+
+_N = "trusts z3 on ground pinned queries, the reference clauses of psmc/ref.py (UNSPEC corners of DESIGN.md section 4 are not demanded) and the adapter (documented task unknowns plus the internal handles listed in psmc/explore.py); bounds: <=3 tasks (4 on cumulative workers), horizon <=8"
+CHECKS["C02"] = {"engine": "E1 schedule-space explorer", "technique": _T,
+    "text": "whole box of task times, durations, scheduled/selection flags AND the busy bounds of every assignment explored on ~200 resource programs (one/two workers, delays, dynamic, selections with every count/kind, cumulative sizes, productivity x work amount grids); every admitted leaf judged by no-overlap, declared span, count, capacity and work-amount clauses",
+    "note": _N}
+CHECKS["C03"] = {"engine": "E1 schedule-space explorer", "technique": _T,
+    "text": "every task-constraint class x boundary parameter grid x optional subsets on 2-3 task scenes: every admitted leaf must satisfy the class clause (S) and every leaf the reference calls valid must be admitted (K: constraints naming an unscheduled optional task must not bind)",
+    "note": _N}
+CHECKS["C04"] = {"engine": "E1 schedule-space explorer", "technique": _T,
+    "text": "every resource-constraint class x parameter grid (interval lists, bounds x kinds, distances x modes, periods x offsets x masks, Same/Distinct lists) on plain workers, selections and cumulative workers; every admitted leaf judged by the class clause",
+    "note": _N}
+CHECKS["C05"] = {"engine": "E1 schedule-space explorer", "technique": "explicit enumeration of the bounded box by the Python reference; every VALID point looked up in the exhaustively explored admitted set of the real solver object",
+    "text": "direction K over the union of the alphabets: every box point the reference calls VALID is admitted by the implementation (re-checked as a fully pinned leaf), the verdict of the real solve() agrees with the explored set, lost schedules are attributed to a 1-minimal culprit and confirmed through the public API in a fresh process",
+    "note": _N}
+CHECKS["C06"] = {"engine": "E1 schedule-space explorer", "technique": "explicit-state enumeration of the box of P and of P-without-U on the real solver objects; set comparison (deletion differential), reported view under pins",
+    "text": "for ~900 programs with optional tasks: S direction with the full reference, reported view of every admitted leaf that leaves a task unscheduled, and for every subset U the rules allow the admitted set restricted to exactly-U-unscheduled equals (as a set) the admitted set of the program with U deleted, with equal indicator values",
+    "note": _N + "; task deletion is defined in props/C06.py delete_tasks"}
